@@ -9,6 +9,7 @@ running it, so a dying interpreter pins the culprit (a crash is a violation).
 Each case is a *history* of 1-5 builds in one process that reuse the same path
 and code with different config values and symbols.
 """
+import sys
 import copy
 import random
 
@@ -287,7 +288,14 @@ def gen_program(rng):
 
 
 FSTR = ['{max} {abs}', '{c0} and {c1 + 1}', 'x={s0!r} y={c2:>5}', '{elems[0]:03d}|{data["a"]}', '{c0 * 2:.2f} {helper(c1)}', 'plain', '{sum(x for x in elems)}',
-        '{c3} shadowed by a symbol', '{ {"k": c0}["k"] }', "{'%s' % c1}", '{len(elems)}{len2 if False else ""}']
+        '{c3} shadowed by a symbol', '{ {"k": c0}["k"] }', "{'%s' % c1}", '{len(elems)}{len2 if False else ""}', "{data['a']} and {data[\"b\"]}", "it's {c0}",
+        "{c0}\n{c1 + 1}", "'{c0}'"]
+
+
+# implicit f-strings whose text contains their own delimiter again (escaped, re-used inside a replacement field as python >= 3.12
+# allows, or as the start of an adjacent literal): still one plain YAML scalar that looks like f'..' from end to end
+FSTR_SAME_QUOTE = ["f'{data['a']} of {c1}'", "f'it\\'s {c0}'", "f'{c0}' f'{c1}'", 'f"{data["b"]}|{c0}"', 'f"say \\"{c1}\\" twice"', 'f"{c0}" f"-{c2}"',
+                   "f'{elems[0]}' '{c0}'"]
 
 
 def gen_env(rng):
@@ -309,8 +317,10 @@ def gen_case(rng, tier):
     if rng.random() < 0.2:
         code, kind, used = rng.choice(FSTR), 'fstr', ['c0']
         spelling = rng.choice(['tag', 'sq', 'dq'])
-        if ': ' in code or ' #' in code or ("'" in code and spelling == 'sq') or ('"' in code and spelling == 'dq'):
+        if ': ' in code or ' #' in code or '\n' in code or ("'" in code and spelling == 'sq') or ('"' in code and spelling == 'dq'):
             spelling = 'tag'             # the implicit forms must be plain YAML scalars and valid Python literals as they stand
+        if sys.version_info >= (3, 12) and rng.random() < 0.3:
+            code, spelling = rng.choice(FSTR_SAME_QUOTE), 'whole'
     else:
         code, kind, used = gen_program(rng)
         spelling = 'eval'
@@ -340,6 +350,18 @@ def native(code, kind, spelling, cfg, sym):
     if kind == 'fstr':
         text = code
         src = "f'" + text.replace("'", "\\'") + "'" if spelling == 'tag' else ("f'" + text + "'" if spelling == 'sq' else 'f"' + text + '"')
+        if spelling == 'whole':
+            src = text
+        if spelling == 'tag':
+            # "the corresponding Python f-string": the text between whichever quotes do not clash with it
+            for q in ("'", '"', "'''", '"""'):
+                cand = 'f' + q + text + q
+                try:
+                    compile(cand, '<fstr>', 'eval')
+                except SyntaxError:
+                    continue
+                src = cand
+                break
         try:
             return ('ok', eval(src, ns))
         except Exception as e:
@@ -359,7 +381,7 @@ def build_text(case, b):
             node = SP('fstr', text=case['code'])
         else:
             q = "'" if case['spelling'] == 'sq' else '"'
-            node = {'t': 'sp', 'kind': 'raw', 'text': 'f' + q + case['code'] + q}
+            node = {'t': 'sp', 'kind': 'raw', 'text': ('f' + q + case['code'] + q) if case['spelling'] != 'whole' else case['code']}
     else:
         node = SP('eval', code=case['code'])
     if case['key'] == 'result':
